@@ -16,6 +16,7 @@ import (
 type An struct {
 	C *Ctx
 	F *FE
+	E *Effects
 	R *Report
 }
 
@@ -35,6 +36,7 @@ func main() {
 	repo := flag.String("repo", "/repo", "repository working tree to analyse")
 	verif := flag.String("verif", "/verif", "verif directory (evidence, known findings)")
 	dump := flag.String("dump", "", "debug: dump facts of the named function")
+	dumpEff := flag.String("dumpeff", "", "debug: dump effects of the named function")
 	list := flag.Bool("list", false, "debug: list functions")
 	flag.Parse()
 	if t := os.Getenv("VERIF_TIER"); t != "" && *tier == "" {
@@ -48,7 +50,7 @@ func main() {
 	}
 	os.Unsetenv("GOWORK")
 
-	if *list || *dump != "" {
+	if *list || *dump != "" || *dumpEff != "" {
 		c, err := Load(*repo, "")
 		if err != nil {
 			fmt.Println(err)
@@ -58,6 +60,22 @@ func main() {
 			for _, f := range c.FuncSeq {
 				fmt.Println(c.Name(f))
 			}
+			return
+		}
+		if *dumpEff != "" {
+			ef := NewEffects(c)
+			f, ok := c.Fn(*dumpEff)
+			if !ok {
+				fmt.Println("no such function")
+				return
+			}
+			for _, x := range ef.Of(f) {
+				fmt.Printf("%d %-50s abs=%-50s at %s\n", x.Kind, x.Path, c.abs(f, x.Path), c.InstrPos(x.At))
+			}
+			return
+		}
+		if os.Getenv("DBG_CALLEES") != "" {
+			dbgCallees(c, *dump)
 			return
 		}
 		fe := NewFE(c)
@@ -108,10 +126,11 @@ func main() {
 			continue
 		}
 		fe := NewFE(c)
+		eff := NewEffects(c)
 		for _, id := range ids {
 			r := reports[id]
 			r.cfg = cfgName
-			runProp(id, &An{C: c, F: fe, R: r})
+			runProp(id, &An{C: c, F: fe, E: eff, R: r})
 			r.Extra["configurations"] = appendStr(r.Extra["configurations"], cfgName)
 			r.Extra["functions_analysed"] = len(c.FuncSeq)
 			r.Extra["callgraph_nodes"] = len(c.CG.Nodes)
